@@ -312,6 +312,10 @@ BuildR(i, Hd, App, acc) == IF i = 0 THEN acc
 \*   "cforce"   constant force f (in G) at a body station          "ctorque" constant torque (in G) on a body
 \*   "mcf"      constant force on one mobility                     "mls" -k (q - q0) on a translational coordinate, PE = k (q - q0)^2 / 2
 \*   "mld"      -c u on one mobility                               "gdamper" -c u on every mobility
+\*   "tpls" / "tpld" / "tpcf"  TwoPointLinearSpring / Damper / ConstantForce between station st of b1 and st2 of b2 (either may be
+\*            Ground): equal and opposite forces along the line between the points -- f d on point 1, -f d on point 2, d the unit
+\*            vector from 1 to 2, f = k (x - x0), c xdot, -force respectively.  The unit vector needs a square root: the spec delivers the
+\*            exact ingredients (p, p . pdot, the two lever arms) and the checker finishes; these elements are left out of the exact sums
 \* an element with on = 0 is disabled and contributes nothing
 Eval(dyn, ud, F, q2, u2, tasks, cons, felems, felems2) ==
   LET X == TLCEval(Poses)
@@ -340,6 +344,10 @@ Eval(dyn, ud, F, q2, u2, tasks, cons, felems, felems2) ==
       Hd == TLCEval([b \in 1..N |-> [f |-> FSa[b].f, t |-> VAdd(FSa[b].t, Cross(ComG(b, X), FSa[b].f))]])
       App == TLCEval([b \in 1..N |-> [f |-> Fb[b].f, t |-> VAdd(Fb[b].t, Cross(X[b].p, Fb[b].f))]])
       RO == TLCEval(BuildR(N, Hd, App, [b \in 1..N |-> WZero]))
+      \* body-level accessors with Ground as body 0
+      BodyK(K, b) == IF b = 0 THEN GroundV ELSE K[b]
+      BodyR(b) == IF b = 0 THEN Ident ELSE X[b].R
+      BodyP(b) == IF b = 0 THEN VZero ELSE X[b].p
       \* ---- force elements
       IV3(v) == VI(v[1], v[2], v[3])
       ForceEval(FL) ==
@@ -376,7 +384,17 @@ Eval(dyn, ud, F, q2, u2, tasks, cons, felems, felems2) ==
                              SumRS(TLCEval([j \in 1..ND |-> RMul(MobF(e, j), uf[j])]), ND))
             Cons(e) == e.type \in {"gravity", "ugravity", "mls"}
             Diss(e) == e.type \in {"mld", "gdamper"}
-        IN [body |-> [b \in 1..N |-> LET W == [k \in 1..NF |-> BodyW(FL[k], b)] IN
+            TwoPt(e) ==
+              IF e.type \in {"tpls", "tpld", "tpcf"} THEN
+                LET B1 == BodyK(Vu, e.b)  B2 == BodyK(Vu, e.b2)
+                    r1 == MV(BodyR(e.b), IV3(e.st))  r2 == MV(BodyR(e.b2), IV3(e.st2))
+                    pp == VSub(VAdd(BodyP(e.b2), r2), VAdd(BodyP(e.b), r1))
+                    pd == VSub(VAdd(B2.v, Cross(B2.w, r2)), VAdd(B1.v, Cross(B1.w, r1)))
+                IN [p |-> pp, pv |-> Dot(pp, pd), r1 |-> r1, r2 |-> r2, o1 |-> BodyP(e.b), o2 |-> BodyP(e.b2),
+                    v1 |-> VAdd(B1.v, Cross(B1.w, r1)), v2 |-> VAdd(B2.v, Cross(B2.w, r2))]
+              ELSE [p |-> VZero, pv |-> Zero, r1 |-> VZero, r2 |-> VZero, o1 |-> VZero, o2 |-> VZero, v1 |-> VZero, v2 |-> VZero]
+        IN [twopt |-> [k \in 1..NF |-> TwoPt(FL[k])],
+            body |-> [b \in 1..N |-> LET W == [k \in 1..NF |-> BodyW(FL[k], b)] IN
                                       [t |-> SumVS(TLCEval([k \in 1..NF |-> W[k].t]), NF), f |-> SumVS(TLCEval([k \in 1..NF |-> W[k].f]), NF)]],
             mob |-> [j \in 1..ND |-> SumRS(TLCEval([k \in 1..NF |-> MobF(FL[k], j)]), NF)],
             pe2 |-> SumRS(TLCEval([k \in 1..NF |-> PE2(FL[k])]), NF),
@@ -388,9 +406,6 @@ Eval(dyn, ud, F, q2, u2, tasks, cons, felems, felems2) ==
       FZ2 == ForceEval(felems2)
       \* ---- constraints
       NC == Len(cons)
-      BodyK(K, b) == IF b = 0 THEN GroundV ELSE K[b]
-      BodyR(b) == IF b = 0 THEN Ident ELSE X[b].R
-      BodyP(b) == IF b = 0 THEN VZero ELSE X[b].p
       AxisV(a) == << Red(a.n[1], a.e), Red(a.n[2], a.e), Red(a.n[3], a.e) >>
       \* errors of constraint c for body kinematics K (records w, v, aw, a per body), speeds uu and speed derivatives udd
       ConsErr(c, K, uu, udd) ==
@@ -465,8 +480,8 @@ Eval(dyn, ud, F, q2, u2, tasks, cons, felems, felems2) ==
       reactF |-> IF dyn THEN [b \in 1..N |-> LET w == WShift(RO[b], X[b].pF) IN [t |-> VNeg(w.t), f |-> VNeg(w.f)]] ELSE <<>>,
       \* pose and velocity of M in F (expressed in F) for the coordinates q2 and speeds u2: what a mobilizer fitted to
       \* them must reproduce
-      forces |-> [body |-> FZ1.body, mob |-> FZ1.mob, pe2 |-> FZ1.pe2, power |-> FZ1.power],
-      forces2 |-> [body |-> FZ2.body, mob |-> FZ2.mob, pe2 |-> FZ2.pe2, power |-> FZ2.power],
+      forces |-> [body |-> FZ1.body, mob |-> FZ1.mob, pe2 |-> FZ1.pe2, power |-> FZ1.power, twopt |-> FZ1.twopt],
+      forces2 |-> [body |-> FZ2.body, mob |-> FZ2.mob, pe2 |-> FZ2.pe2, power |-> FZ2.power, twopt |-> FZ2.twopt],
       forceLaws |-> FZ1.powerIsMinusDPE /\ FZ1.dampersDissipate /\ FZ2.powerIsMinusDPE /\ FZ2.dampersDissipate,
       cons |-> [k \in 1..NC |-> [perr |-> ConsAt0[k].perr, verr |-> ConsAt0[k].verr, aerr0 |-> ConsAt0[k].aerr, aerr |-> ConsAtUd[k].aerr,
                                   verrU2 |-> ConsAtU2[k].verr, aerr0U2 |-> ConsAtU2[k].aerr]],
